@@ -53,7 +53,7 @@ func init() {
 	Plans["C11"].Prefixes = append(Plans["C11"].Prefixes, "H_C12_string")
 	Plans["C02"].Prefixes = append(Plans["C02"].Prefixes, "H_C19_exprefs")
 	Plans["C03"].Prefixes = append(Plans["C03"].Prefixes, "H_C12_spellings")
-	Plans["C04"].Prefixes = append(Plans["C04"].Prefixes, "H_C12_spellings")
+	Plans["C04"].Prefixes = append(Plans["C04"].Prefixes, "H_C12_spellings", "H_C06_history")
 }
 
 type KnownFinding struct {
